@@ -2,7 +2,7 @@ from engine import Query
 import json
 META = {
  'functions': ['Template::Render / TemplateCore::Parse + Render (Template.hpp) un-stubbed, with the real Finder, Tags, QExpression, Value<char>, HArray, Array, String, StringUtils::EscapeHTMLSpecialChars'],
- 'bounds': 'a listed family of CONCRETE templates x CONCRETE value-tree shapes (object of strings, array under a key, nested object + number, root array, super-variable phrase, object of arrays); the two leaf strings of the tree '
+ 'bounds': 'a listed family of CONCRETE templates x CONCRETE value-tree shapes (object of strings, array under a key, nested object + number, root array, super-variable phrase, object of arrays, array of arrays, numbers under a key); the two leaf strings of the tree '
            '(2 units each, every code unit incl. < > & " \') are symbolic: the solver decides over all leaf contents. Rendered text == documented expansion; second render through the same tag cache identical; '
            'value, template text and pre-existing stream content untouched; every access inside the exact-size template buffer. Thorough adds every truncation point of every family member (safety + purity only).',
  'outside': 'templates and tree shapes outside the family; symbolic template text (one symbolic unit: no verdict in 300 s); symbolic tree shape / key text; leaf strings longer than 2 units; real-number leaves '
@@ -31,9 +31,12 @@ FAMILY = [
  ('if_bareword', '<if case="n">T</if>x',                       2, 'L("x")'),
  ('svar',       '{svar:p, {var:a}, {raw:b}}',                 4, 'L("&lt;"); E(0); L("|"); R(1); L("&gt;")'),
  ('loop_key',   '<loop value="v">{var:v};</loop>',            5, 'L("&lt;k&gt;;j;")'),
+ ('var_unprintable', 'q{var:<k>}',                           5, 'L("q{var:&lt;k&gt;}")'),
+ ('loop_elseif', '<loop set="n" value="v"><if case="{var:v} == 1">A<elseif case="{var:v} == 2" />B<else />C</if></loop>', 7, 'L("ABC")'),
+ ('loop_sort',  '<loop value="r"><loop set="r" value="c" sort="ascend">{var:c};</loop></loop>', 6, 'if (leaf_less(1, 0)) { E(1); L(";"); E(0); L(";"); } else { E(0); L(";"); E(1); L(";"); }'),
  ('loop_if',    '<loop set="a" value="v"><if case="1">{var:v}</if></loop>', 1, 'E(0); E(1)'),
 ]
-HEAVY = ('loop_array', 'loop_if', 'loop_obj', 'loop_set', 'inline_if', 'svar', 'index_path', 'array_index')
+HEAVY = ('loop_sort', 'loop_array', 'loop_if', 'loop_obj', 'loop_set', 'inline_if', 'svar', 'index_path', 'array_index')
 def B(n):
     return {'Next': n + 2, 'h_render|build|leaves_intact|L|E|R': n + 4, 'Copy': 40, 'IsEqual': 10, 'Dispose': 4, 'parse|parse.*|checkLoopVariable|getOperation|isExpression|parseExpressions|parseValue': n + 2,
             'vf_mem.*': 200, 'SetToZero': 24, 'render.*|getValue|evaluate.*|GetExpressionValue|isEqual|Render': 6, 'Write|write': n + 2, 'EscapeHTMLSpecialChars': 4, 'Hash': 3, 'find': 4,
